@@ -177,7 +177,13 @@ class StackWorld(object):
     rec['open_ready_at_issue'] = bool(oa is not None and oa.ready())
     self.calls.append(rec)
     try:
-      ar = self.dispatcher.DispatchMethodCall(method, args, kwargs or {}, timeout=timeout)
+      if timeout is None or timeout == self.default_timeout:
+        # the client's default timeout: the call is made the way applications make it, through the
+        # generated client (its asynchronous form); other timeouts need the dispatcher's parameter
+        rec['via_proxy'] = True
+        ar = getattr(self.client, method + '_async')(*args, **(kwargs or {}))
+      else:
+        ar = self.dispatcher.DispatchMethodCall(method, args, kwargs or {}, timeout=timeout)
     except Exception as e:  # noqa
       rec['dispatch_raised'] = e
       return rec
